@@ -15,14 +15,14 @@ use std::collections::BTreeMap;
 use std::net::{IpAddr, Ipv4Addr, Ipv6Addr, SocketAddr};
 use tokio::net::{TcpListener, TcpStream};
 
-type Key = (u32, String, u32); // (family, nlri, path id)
-type Val = (String, String); // (attributes by content, next hop)
+pub(super) type Key = (u32, String, u32); // (family, nlri, path id)
+pub(super) type Val = (String, String); // (attributes by content, next hop)
 
-fn fam_id(f: Family) -> u32 {
+pub(super) fn fam_id(f: Family) -> u32 {
     ((f.afi() as u32) << 16) | f.safi() as u32
 }
 
-fn render_attrs(a: &[packet::Attribute]) -> String {
+pub(super) fn render_attrs(a: &[packet::Attribute]) -> String {
     let mut v: Vec<String> = a
         .iter()
         .map(|x| format!("{}:{}", x.code(), hex(&x.encode_to_bytes())))
@@ -34,37 +34,37 @@ fn render_attrs(a: &[packet::Attribute]) -> String {
 // ------------------------------------------------------------------ configuration
 
 #[derive(Clone, Debug)]
-struct ObsCfg {
-    v6: bool,
-    role: PeerRole,
-    cluster_id: Option<Ipv4Addr>,
-    confed_id: u32,
-    addpath: bool,
-    send_max: usize,
-    as4: bool,
-    shards: usize,
+pub(super) struct ObsCfg {
+    pub(super) v6: bool,
+    pub(super) role: PeerRole,
+    pub(super) cluster_id: Option<Ipv4Addr>,
+    pub(super) confed_id: u32,
+    pub(super) addpath: bool,
+    pub(super) send_max: usize,
+    pub(super) as4: bool,
+    pub(super) shards: usize,
     /// the observer is itself a source of routes (echo filtering inside the window)
-    obs_is_source: bool,
+    pub(super) obs_is_source: bool,
     /// RIB-side operations are issued from several OS threads (one per group of source
     /// peers, per-peer order preserved) with delay injection at the table_manager hook
     /// points, while the observer keeps delivering / flushing on this thread
-    concurrent: bool,
+    pub(super) concurrent: bool,
     /// (with `concurrent`) the observing neighbour's session comes up (initial dump +
     /// registration of its event channel, `on_established`) while source threads are in
     /// the middle of a burst of RIB operations, on a RIB that already holds routes
-    late_join: bool,
+    pub(super) late_join: bool,
 }
 
-const LOCAL_ASN: u32 = 65000;
-const N_PEERS: usize = 4; // peer 0 is the observer's own address when obs_is_source
-const N_PFX: usize = 8;
-const N_ATTR: usize = 6;
+pub(super) const LOCAL_ASN: u32 = 65000;
+pub(super) const N_PEERS: usize = 4; // peer 0 is the observer's own address when obs_is_source
+pub(super) const N_PFX: usize = 8;
+pub(super) const N_ATTR: usize = 6;
 
-fn obs_addr() -> IpAddr {
+pub(super) fn obs_addr() -> IpAddr {
     IpAddr::V4(Ipv4Addr::new(192, 0, 2, 9))
 }
 
-fn peer_addr(i: usize) -> IpAddr {
+pub(super) fn peer_addr(i: usize) -> IpAddr {
     if i == 0 {
         obs_addr()
     } else {
@@ -72,7 +72,7 @@ fn peer_addr(i: usize) -> IpAddr {
     }
 }
 
-fn peer_role(i: usize, cfg: &ObsCfg) -> PeerRole {
+pub(super) fn peer_role(i: usize, cfg: &ObsCfg) -> PeerRole {
     match i {
         0 => cfg.role,
         1 => PeerRole::Ebgp,
@@ -89,7 +89,7 @@ fn peer_role(i: usize, cfg: &ObsCfg) -> PeerRole {
     }
 }
 
-fn peer_asn(role: PeerRole, i: usize) -> u32 {
+pub(super) fn peer_asn(role: PeerRole, i: usize) -> u32 {
     match role {
         PeerRole::Ibgp | PeerRole::IbgpRrClient => LOCAL_ASN,
         PeerRole::ConfedEbgp => 65100 + i as u32,
@@ -97,11 +97,11 @@ fn peer_asn(role: PeerRole, i: usize) -> u32 {
     }
 }
 
-fn family(cfg: &ObsCfg) -> Family {
+pub(super) fn family(cfg: &ObsCfg) -> Family {
     if cfg.v6 { Family::IPV6 } else { Family::IPV4 }
 }
 
-fn prefix(cfg: &ObsCfg, i: usize) -> packet::Nlri {
+pub(super) fn prefix(cfg: &ObsCfg, i: usize) -> packet::Nlri {
     if cfg.v6 {
         packet::Nlri::V6(bgp::Ipv6Net {
             addr: Ipv6Addr::new(0x2001, 0xdb8, i as u16, 0, 0, 0, 0, 0),
@@ -115,7 +115,7 @@ fn prefix(cfg: &ObsCfg, i: usize) -> packet::Nlri {
     }
 }
 
-fn nexthop(cfg: &ObsCfg, i: usize) -> bgp::Nexthop {
+pub(super) fn nexthop(cfg: &ObsCfg, i: usize) -> bgp::Nexthop {
     if cfg.v6 {
         bgp::Nexthop::V6(Ipv6Addr::new(
             0x2001,
@@ -132,7 +132,7 @@ fn nexthop(cfg: &ObsCfg, i: usize) -> bgp::Nexthop {
     }
 }
 
-fn as_path(asns: &[u32]) -> packet::Attribute {
+pub(super) fn as_path(asns: &[u32]) -> packet::Attribute {
     let mut b = vec![2u8, asns.len() as u8];
     for a in asns {
         b.extend_from_slice(&a.to_be_bytes());
@@ -142,7 +142,7 @@ fn as_path(asns: &[u32]) -> packet::Attribute {
 
 /// A small pool of attribute sets; several have equal preference so that ties,
 /// replacements and rank changes all occur.
-fn attr_pool(tag_base: u32) -> Vec<Arc<Vec<packet::Attribute>>> {
+pub(super) fn attr_pool(tag_base: u32) -> Vec<Arc<Vec<packet::Attribute>>> {
     let origin = |v| packet::Attribute::new_with_value(packet::Attribute::ORIGIN, v).unwrap();
     let med = |v| packet::Attribute::new_with_value(packet::Attribute::MULTI_EXIT_DESC, v).unwrap();
     let lp = |v| packet::Attribute::new_with_value(packet::Attribute::LOCAL_PREF, v).unwrap();
@@ -179,7 +179,7 @@ fn attr_pool(tag_base: u32) -> Vec<Arc<Vec<packet::Attribute>>> {
     ]
 }
 
-fn export_policies(cfg: &ObsCfg) -> Vec<Option<Arc<table::PolicyAssignment>>> {
+pub(super) fn export_policies(cfg: &ObsCfg) -> Vec<Option<Arc<table::PolicyAssignment>>> {
     let mut out: Vec<Option<Arc<table::PolicyAssignment>>> = vec![None];
     let pfx = |i: usize| {
         if cfg.v6 {
@@ -275,7 +275,7 @@ fn export_policies(cfg: &ObsCfg) -> Vec<Option<Arc<table::PolicyAssignment>>> {
     out
 }
 
-fn import_policies(cfg: &ObsCfg) -> Vec<Option<Arc<table::PolicyAssignment>>> {
+pub(super) fn import_policies(cfg: &ObsCfg) -> Vec<Option<Arc<table::PolicyAssignment>>> {
     let mut out: Vec<Option<Arc<table::PolicyAssignment>>> = vec![None];
     let pfx = |i: usize| {
         if cfg.v6 {
@@ -352,7 +352,7 @@ fn import_policies(cfg: &ObsCfg) -> Vec<Option<Arc<table::PolicyAssignment>>> {
 // ------------------------------------------------------------------ operations
 
 #[derive(Clone, Debug, PartialEq)]
-enum Op {
+pub(super) enum Op {
     Announce {
         peer: usize,
         pfx: usize,
@@ -403,7 +403,7 @@ enum Op {
 }
 
 impl Op {
-    fn kind(&self) -> &'static str {
+    pub(super) fn kind(&self) -> &'static str {
         match self {
             Op::Announce { .. } => "announce",
             Op::Withdraw { .. } => "withdraw",
@@ -424,7 +424,7 @@ impl Op {
     }
 }
 
-fn gen_ops(rng: &mut Rng, cfg: &ObsCfg, n: usize) -> Vec<Op> {
+pub(super) fn gen_ops(rng: &mut Rng, cfg: &ObsCfg, n: usize) -> Vec<Op> {
     let mut ops = Vec::new();
     let first_peer = if cfg.obs_is_source { 0 } else { 1 };
     let pick_peer = |rng: &mut Rng| first_peer + rng.usize(N_PEERS - first_peer);
@@ -865,7 +865,7 @@ impl Observer {
 // ------------------------------------------------------------------ world (source peers)
 
 #[derive(Clone, Copy, PartialEq, Debug)]
-enum PeerSt {
+pub(super) enum PeerSt {
     Up,
     GrDown,
     GrUpAwaitingEor,
@@ -873,25 +873,25 @@ enum PeerSt {
     LlgrUpAwaitingEor,
 }
 
-struct PeerSlot {
-    src: Arc<table::Source>,
-    st: PeerSt,
+pub(super) struct PeerSlot {
+    pub(super) src: Arc<table::Source>,
+    pub(super) st: PeerSt,
 }
 
-struct World {
-    tables: TableHandle,
-    cfg: ObsCfg,
+pub(super) struct World {
+    pub(super) tables: TableHandle,
+    pub(super) cfg: ObsCfg,
     /// one slot per source peer; the slot's lock is held across the table call so
     /// that one peer's operations keep their order (one session = one task)
-    peers: Vec<std::sync::Mutex<PeerSlot>>,
-    attrs: Vec<Arc<Vec<packet::Attribute>>>,
-    exp: Vec<Option<Arc<table::PolicyAssignment>>>,
-    imp: Vec<Option<Arc<table::PolicyAssignment>>>,
-    ts: std::sync::atomic::AtomicU32,
+    pub(super) peers: Vec<std::sync::Mutex<PeerSlot>>,
+    pub(super) attrs: Vec<Arc<Vec<packet::Attribute>>>,
+    pub(super) exp: Vec<Option<Arc<table::PolicyAssignment>>>,
+    pub(super) imp: Vec<Option<Arc<table::PolicyAssignment>>>,
+    pub(super) ts: std::sync::atomic::AtomicU32,
 }
 
 impl World {
-    fn new_source(cfg: &ObsCfg, i: usize) -> Arc<table::Source> {
+    pub(super) fn new_source(cfg: &ObsCfg, i: usize) -> Arc<table::Source> {
         let role = peer_role(i, cfg);
         Arc::new(table::Source::new(
             peer_addr(i),
@@ -903,7 +903,7 @@ impl World {
         ))
     }
 
-    fn new(cfg: &ObsCfg) -> World {
+    pub(super) fn new(cfg: &ObsCfg) -> World {
         let tables: TableHandle = Arc::new(TableManager::new(cfg.shards));
         World {
             tables,
@@ -925,7 +925,7 @@ impl World {
 
     /// Apply a RIB-side operation the way the daemon's session / timer code would.
     /// Returns false when the op is not applicable in the current state (then it is a no-op).
-    fn apply(&self, op: &Op) -> bool {
+    pub(super) fn apply(&self, op: &Op) -> bool {
         let f = family(&self.cfg);
         let ts = self.ts.fetch_add(1, Ordering::Relaxed) + 1;
         match *op {
@@ -1101,7 +1101,7 @@ struct Outcome {
     late_joins_overlapped: u64,
 }
 
-fn diff(old: &BTreeMap<Key, Val>, new: &BTreeMap<Key, Val>) -> Option<(&'static str, Vec<String>)> {
+pub(super) fn diff(old: &BTreeMap<Key, Val>, new: &BTreeMap<Key, Val>) -> Option<(&'static str, Vec<String>)> {
     let mut stale = Vec::new();
     let mut missing = Vec::new();
     let mut attrs = Vec::new();
@@ -1432,11 +1432,11 @@ fn trigger_of(ops: &[Op]) -> &'static str {
     }
 }
 
-fn ops_json(ops: &[Op]) -> Json {
+pub(super) fn ops_json(ops: &[Op]) -> Json {
     Json::strs(ops.iter().map(|o| format!("{:?}", o)))
 }
 
-fn gen_cfg(rng: &mut Rng) -> ObsCfg {
+pub(super) fn gen_cfg(rng: &mut Rng) -> ObsCfg {
     let role = *rng.pick(&[
         PeerRole::Ebgp,
         PeerRole::Ibgp,
